@@ -640,13 +640,18 @@ def oracle(case, time_limit=None):
     except Exception as e:  # noqa: BLE001
         return f'constraint-rejected:{type(e).__name__} raised while imposing valid constraints: {e}'
     # calls that the finder REFUSES (they raise) impose nothing: the class searched afterwards on the same finder is
-    # the class of the accepted constraints.  A call of this list that is accepted after all is not this situation.
+    # the class of the accepted constraints.  A call of this list that is accepted after all counts as imposed.
+    accepted = []
     for k in case.get('rejected') or []:
         try:
             apply_constraint(f, k)
         except Exception:  # noqa: BLE001
             continue
-        return None
+        accepted.append(k)          # accepted after all: then it is an imposed constraint like the others
+    if accepted:
+        full = dict(case)
+        full['post'] = list(case['post']) + list(after) + accepted
+        shape = shape_of(full)
     if case.get('timeout_first'):
         # a search that hits its time limit says nothing about the formula: the next search on the same
         # finder must still answer correctly (the solver is made slow so that the limit expires for sure)
